@@ -166,10 +166,11 @@ def table(ctx: Ctx):
         else:
             pd = y.kwargs.get("partial_data") if isinstance(y, ExcVal) else None
             ok = isinstance(y, ExcVal) and y.tname == "UnrecognizedPacketTypeError" and isinstance(pd, dict) and \
-                [(k2, int(v)) for k2, v in pd.items()] == items
+                [(k2, int(v)) for k2, v in pd.items()] == items and getattr(pd, "cls", None) == "CCSDSPacket" and \
+                "raw_data" in getattr(pd, "attrs", {})       # the packet object itself (items, header/user views, raw bytes)
             why = (f"{desc}: yielded {('a packet with ' + str(list(y))) if isinstance(y, dict) else repr(y)}"
-                   f"{' with partial data ' + str([(k2, int(v)) for k2, v in pd.items()]) if isinstance(pd, dict) else ''}; expected an "
-                   f"unrecognized-packet report carrying {items}")
+                   f"{' with partial data ' + str([(k2, int(v)) for k2, v in pd.items()]) + ' held in a ' + str(getattr(pd, 'cls', None) or type(pd).__name__) if isinstance(pd, dict) else ''}; expected an "
+                   f"unrecognized-packet report carrying the packet object with {items}")
         ctx.decide(bool(ok), "R5.1", site, "", why, where=where(fi, fi.node))
     # the definition's own root container is where decoding starts when the caller names none
     site = f"{PARSE}::definition with its own root container"
